@@ -126,7 +126,7 @@ def invariants(w, cfg):
         if in_keep:
             t = [t for t in keep if t.sock is c][0]
             late = [m for m in w.murder_passes if t.timeout is not None and m >= t.timeout]
-            if t.timeout is not None and w.s.now - t.timeout > 1.0 + 0.1 and not late:
+            if t.timeout is not None and w.s.now - t.timeout > 1.0 + 0.1 and not late and wk.alive:
                 # the main loop went round at least once more (it never blocks longer than a second) without reaping at all
                 bad.append(("keepalive-not-expired", "idle connection %s is still open %.2f s after its keep-alive deadline and the reaper has not run since" % (
                     c.name, w.s.now - t.timeout)))
@@ -172,6 +172,10 @@ def DRAIN_CHECK(w, step):
             if c.accepted and not c.closed and b"\r\n\r\n" in c.rbuf and free > 0 and wk.alive:
                 return ("request-not-served" + ("-at-capacity" if wk.nr_conns >= w.cfg.worker_connections else ""), "connection %s holds a complete request, a handler thread is free, but it was not dispatched within 3 loop periods "
                         "(nr_conns=%d, worker_connections=%d, polls so far %d)" % (c.name, wk.nr_conns, w.cfg.worker_connections, w.polls))
+            if (c.accepted and not c.closed and not st.get("closed") and not st["half"] and st["requests"] > w.answered(k) and free > 0 and wk.alive
+                    and c.in_job is None and st.get("pipelined") and not c.rbuf):
+                return ("pipelined-request-not-served", "client %d sent two requests in one segment on %s; one was answered, the other sits in the parser's buffer and is not "
+                        "dispatched although a handler thread is free (the connection went back to the poller, which only reports NEW bytes)" % (k, c.name))
             if not c.accepted and wk.alive and wk.nr_conns < w.cfg.worker_connections and c in w.listener.pending:
                 return ("connection-not-accepted", "a connection waits in the backlog, capacity is free, but it was not accepted within 3 loop periods")
     n_close = 3 + 1 + 2 + 1 + (cfg_ka + 3)
